@@ -171,7 +171,7 @@ def run_shard(shard, tier, seed):
         n = max(N[tier] // len(modes), SWEEP[tier] * BOOST.get(I.name, 1) * len(I.specs[mode])) // shard.get("nsub", 1) + 1
 
         def body(rnd, mode=mode, e=e):
-            b = I.gen_bytes(rnd, mode, e)
+            b = I.gen_x86_modrm(rnd, mode) if (I.is_x86 and rnd.random() < 0.3) else I.gen_bytes(rnd, mode, e)
             status, fails = stages(I, b, mode, e, fmts)
             part.count(status)
             if status == "timeout":
